@@ -112,20 +112,24 @@ def gather_oracle(ctx):
             return await fut
         r.executor_called = executor_called
 
-        async def resolver():
-            while len(started) < n:
+        async def main():
+            tasks = [asyncio.ensure_future(s.value_async(title="g%d" % i)) for i, s in enumerate(streams)]
+            waiter = asyncio.gather(*tasks, return_exceptions=True)
+            for _ in range(200):
+                if len(started) + sum(1 for t in tasks if t.done()) >= n:
+                    break
                 await asyncio.sleep(0)
             for i in order:
-                if results[i][0] == "R":
-                    started[i].set_result(results[i][1])
-                else:
-                    started[i].set_exception(sc.EXC[results[i][1]]("scripted"))
+                if i < len(started) and not started[i].done():
+                    if results[i][0] == "R":
+                        started[i].set_result(results[i][1])
+                    else:
+                        started[i].set_exception(sc.EXC[results[i][1]]("scripted"))
                 await asyncio.sleep(0)
-
-        async def main():
-            res = await asyncio.gather(*([s.value_async(title="g%d" % i) for i, s in enumerate(streams)] + [resolver()]),
-                                       return_exceptions=True)
-            return res[:-1]
+            for extra in started[n:]:
+                if not extra.done():
+                    extra.set_result("extra")
+            return await asyncio.wait_for(waiter, 5)
         sc._W = r
         got = asyncio.run(main())
         ctx.evaluations += 1
